@@ -1,5 +1,5 @@
 // govc:pkg .
-// govc:bound HAVING: 5 aggregates x 2 columns x {>,<,>=} x 3 thresholds singly, and 40 AND/OR pairs of unselected aggregates (about 130 queries; every third one beside a compound SELECT item); SELECT items: 12 item shapes (incl. parenthesised literal operands) plus 9 items using one aggregate twice over swapped operands x aggregates {sum,avg,min,max,count} x columns {v,w} x operators {+,-,*,/} x literals {2,0.5,32} on one fixed batch of 3 groups x 3 rows (about 700 queries)
+// govc:bound HAVING: 5 aggregates x 2 columns x {>,<,>=} x 3 thresholds singly, and 40 AND/OR pairs of unselected aggregates (about 130 queries; every third one beside a compound SELECT item); SELECT items: 12 item shapes (incl. parenthesised literal operands) plus 9 items using one aggregate twice over swapped operands and 4 items with a two-argument scalar call inside an aggregate's argument x aggregates {sum,avg,min,max,count} x columns {v,w} x operators {+,-,*,/} x literals {2,0.5,32} on one fixed batch of 3 groups x 3 rows (about 700 queries)
 // govc:also C11
 // Bounded stand-in (NOT a proof): SELECT items that combine aggregate calls, literals and arithmetic, executed through
 // the real engine (Execute / Emit / sync sink) against a relational oracle computed from the same rows. The classification
@@ -143,6 +143,12 @@ func govcItems() []govcItem {
 		out = append(out, govcItem{a + "(v/w) - " + a + "(w/v)", govcBin("-", rowExpr(a, func(v, w float64) float64 { return v / w }), rowExpr(a, func(v, w float64) float64 { return w / v }))})
 		out = append(out, govcItem{a + "(v-w) * 2 + " + a + "(w-v)", govcBin("+", govcBin("*", rowExpr(a, func(v, w float64) float64 { return v - w }), govcLit(2)), rowExpr(a, func(v, w float64) float64 { return w - v }))})
 	}
+	// a multi-argument scalar call inside the argument of an aggregate, at its start and not at its start
+	pow2 := func(x float64) float64 { return x * x }
+	out = append(out, govcItem{"SUM(v + POWER(w, 2)) + 1", govcBin("+", rowExpr("SUM", func(v, w float64) float64 { return v + pow2(w) }), govcLit(1))})
+	out = append(out, govcItem{"SUM(POWER(w, 2) + v) + 1", govcBin("+", rowExpr("SUM", func(v, w float64) float64 { return pow2(w) + v }), govcLit(1))})
+	out = append(out, govcItem{"MAX(v * POWER(w, 2)) - MIN(v)", govcBin("-", rowExpr("MAX", func(v, w float64) float64 { return v * pow2(w) }), govcAgg("MIN", "v", 1))})
+	out = append(out, govcItem{"SUM(2 * POWER(w, 2)) / COUNT(v)", govcBin("/", rowExpr("SUM", func(v, w float64) float64 { return 2 * pow2(w) }), govcAgg("COUNT", "v", 1))})
 	return out
 }
 
